@@ -105,6 +105,7 @@ fixed("FX-pad-jvp-modes", ["C02", "C15"], "8d5fb8b", "forward-mode np.pad padded
 fixed("FX-make-diagonal-dtype", ["C05", "C09"], "b957bf9", "make_diagonal allocated float64: complex input lost its imaginary part; diagonal()/make_diagonal() returned real gradients for complex arguments", case("diagonal", [C(3, 3)], {"axis1": -1, "axis2": -2}))
 fixed("FX-solve-broadcast-a", ["C01", "C05", "C09"], "efdfd7a", "np.linalg.solve(a, b) with a single matrix a broadcast against a batch of right-hand sides: the vector/matrix heuristic of grad_solve misfired and the cotangent for a had the wrong shape", case("solve", [W(2), A(3, 2, 3)], ns="linalg", argnum=0, tags=["bcast_a"]))
 fixed("FX-solve-vec-b-batched-a", ["C01", "C09"], "d6c80b9", "np.linalg.solve(a, b) with a stack of matrices a and one vector b: the adjoint solve read the (batch, M) cotangent as a single matrix (silently wrong when batch == M, an exception otherwise)", case("solve", [onp.stack([W(2), W(2).T + 0.3]), A(2)], ns="linalg", argnum=1, tags=["vec_b_batched_a"]))
+fixed("FX-astype-int-passes-gradient", ["C14"], "74f8075", "x.astype(int) / astype(bool) (integer-valued, piecewise constant) let the cotangent through unchanged in reverse mode: d/dx sum(x*x.astype(int)) returned x.astype(int)+x instead of x.astype(int)", {"kind": "composition", "q": "astype_int", "mode": "rev"})
 fixed("FX-where-jvp-broadcast", ["C05", "C02"], "423a953", "forward-mode np.where returned a tangent with the branch's shape/kind instead of the output's", case("where", [cc, A(3), A(2, 2, 3)], argnum=1), witness_mode="fwd")
 
 out = {"_comment": "Known findings: genuine defects of HIPS/autograd that are recorded rather than repaired (status open) and defects repaired by a 'fix:' commit (status fixed; fixed entries suppress nothing - their witnesses are re-run on every check and a failing one is an ordinary VIOLATION). `match` is a conjunction over fields of the case signature (lists = any of; {__re__}: regex; {__has__}: list membership); never a seed, hash or random value. Read-only at run time.", "findings": F}
